@@ -65,6 +65,8 @@ def configs(tier):
             if pair:
                 i0 = [v for v in range(n) if v not in pair][:1]
                 ics.append(('sets', i0, pair))
+        if g in ('S3', 'paw'):
+            ics.append(('default', None, None))     # neither rho nor initial sets: documented default rho = 1/N (N = 4: exact in binary)
         if g in ('P3', 'paw'):
             # nobody susceptible at tmin (SIS started from full infection; SIR with everybody infected or recovered): still consistent
             ics.append(('sets', list(range(n)), []))
@@ -78,9 +80,9 @@ def configs(tier):
                     continue
                 if entry in NODE and kind != 'rho':
                     continue
-                if entry in NODE_PURE and kind == 'rho':
+                if entry in NODE_PURE and kind in ('rho', 'default'):
                     continue
-                if entry in OTHER and kind != 'rho':
+                if entry in OTHER and kind not in ('rho', 'default'):
                     continue
                 if entry == 'SIS_super_compact_pairwise_from_graph' and g in ('K3', 'C4', 'K4', 'K33'):
                     continue     # its closure divides by the degree variance: undefined on regular graphs (model limitation)
@@ -93,6 +95,18 @@ def configs(tier):
                         out.append(dict(entry=entry, graph=g, ic=kind, I0=I0, R0=R0, full=full, weighted=weighted,
                                         tags=[entry, g, kind, 'full' if full else 'plain'] + (['R0'] if R0 else []) + (['weighted'] if weighted else [])
                                         + (['no-susceptible-stub'] if kind == 'sets' and _no_susceptible_stub(g, I0, R0) else [])))
+    # discrete-time edge-based wrappers (no integrator: the iteration itself runs on symbolic p, rho)
+    for g in gl:
+        n = graphs.ALL[g][0]
+        for entry in ('EBCM_discrete_from_graph', 'EBCM_pref_mix_discrete_from_graph'):
+            kinds = [('rho', None, None)] + ([('default', None, None)] if n == 4 else [])
+            if entry == 'EBCM_discrete_from_graph':
+                kinds += [('sets', [0], []), ('sets', [1], [n - 1])]
+            for (kind, I0, R0) in kinds:
+                for full in (False, True):
+                    for tmin in (0, 2):
+                        out.append(dict(entry=entry, family='discrete', graph=g, ic=kind, I0=I0, R0=R0, full=full, tmin=tmin, weighted=False,
+                                        tags=[entry, g, kind, 'full' if full else 'plain', 'tmin%d' % tmin]))
     return out
 
 
@@ -203,7 +217,67 @@ def run_path(h, cfg):
         eng.div_guard = True
 
 
+def _run_discrete(h, cfg, eng, EoN):
+    entry = cfg['entry']
+    G = graphs.make(cfg['graph'])
+    N = G.order()
+    p = eng.real('p', lo=0, hi=1, lo_strict=True, hi_strict=True)
+    tmin, steps = cfg['tmin'], 3
+    kw = dict(tmin=tmin, tmax=tmin + steps, return_full_data=cfg['full'])
+    rho = None
+    if cfg['ic'] == 'rho':
+        rho = eng.real('rho', lo=0, hi=1, lo_strict=True, hi_strict=True)
+        kw['rho'] = rho
+    elif cfg['ic'] == 'default':
+        rho = Fraction(1, N)
+    else:
+        kw['initial_infecteds'] = list(cfg['I0'])
+        if cfg['R0']:
+            kw['initial_recovereds'] = list(cfg['R0'])
+    ret = h.call_must_succeed('accepted', getattr(EoN, entry), G, p, **kw)
+    if ret is None:
+        return None
+    h.require('accepted', True)
+    want_len = 5 if cfg['full'] else 4
+    if len(ret) != want_len:
+        h.fail('return-shape', {'got': len(ret), 'documented': want_len})
+        return None
+    t, S, I, R = [list(x) for x in ret[:4]]
+    if len(t) != steps + 1 or any(len(x) != len(t) for x in (S, I, R)):
+        h.fail('times=linspace', {'len': [len(t), len(S), len(I), len(R)], 'expected': steps + 1})
+        return None
+    for i, ti in enumerate(t):
+        h.require('times=linspace', EQ(ti, tmin + i), {'i': i, 'got': show(ti)})
+    ref = reference_initial(G, 'rho' if cfg['ic'] == 'default' else cfg['ic'], cfg['I0'] or [], cfg['R0'] or [], rho)
+    for c, arr in (('S', S), ('I', I), ('R', R)):
+        h.require('row0', EQ(arr[0], ref[c]), {'series': c, 'got': show(arr[0]), 'want': show(ref[c])})
+    prover = odex.IdProver(list(eng.pc))
+    for i in range(len(t)):
+        ok, m = prover.equal(S[i] + I[i] + R[i], N)
+        if not ok:
+            h.record_failure('conservation', {'step': i, 'S+I+R': show(S[i] + I[i] + R[i])[:200]}, odex.model_values(m))
+            break
+    else:
+        h.require('conservation', True)
+    for i in range(len(t) - 1):
+        ok, m = prover.equal(R[i + 1], R[i] + I[i])
+        if not ok:
+            h.record_failure('discrete-recovery-after-one-step', {'step': i}, odex.model_values(m))
+            break
+    else:
+        h.require('discrete-recovery-after-one-step', True)
+    if cfg['full']:
+        th = ret[4]
+        th = [th[k] for k in sorted(th)] if isinstance(th, dict) else th
+        a = np.asarray(th, dtype=object)
+        first = [a[0]] if a.ndim == 1 else [row[0] for row in a]
+        h.require('full-data-row0', AND(True, *[EQ(x, 1) for x in first]), {'series': 'theta', 'got': show(first)})
+    return None
+
+
 def _run(h, cfg, eng, EoN, an, flow):
+    if cfg.get('family') == 'discrete':
+        return _run_discrete(h, cfg, eng, EoN)
     entry = cfg['entry']
     G = graphs.make(cfg['graph'])
     N = G.order()
@@ -219,6 +293,8 @@ def _run(h, cfg, eng, EoN, an, flow):
     if cfg['ic'] == 'rho':
         rho = eng.real('rho', lo=0, hi=1, lo_strict=True, hi_strict=True)
         kw['rho'] = rho
+    elif cfg['ic'] == 'default':
+        rho = Fraction(1, N)
     elif entry in NODE_PURE:
         pass
     else:
@@ -246,7 +322,7 @@ def _run(h, cfg, eng, EoN, an, flow):
     if ret is None:
         return None
     h.require('accepted', True)
-    ref = reference_initial(G, cfg['ic'], cfg['I0'] or [], cfg['R0'] or [], rho)
+    ref = reference_initial(G, 'rho' if cfg['ic'] == 'default' else cfg['ic'], cfg['I0'] or [], cfg['R0'] or [], rho)
     # ---- which slots are t, S, I, R
     names = FULL.get(entry) if cfg['full'] else (['t', 'S', 'I', 'R'] if sir else ['t', 'S', 'I'])
     if names is None or len(ret) != len(names):
@@ -457,6 +533,8 @@ def replay_concrete(cfg, kind, values, decisions):
     kw = dict(tmin=tmin, tmax=tmax, tcount=7)
     if cfg['ic'] == 'rho':
         kw['rho'] = rho
+    elif cfg['ic'] == 'default':
+        rho = 1.0 / N
     elif entry not in NODE_PURE:
         kw['initial_infecteds'] = list(cfg['I0'])
         if cfg['R0']:
@@ -480,7 +558,7 @@ def replay_concrete(cfg, kind, values, decisions):
         return {'reproduced': ok, 'concrete_detail': {'exception': repr(e)[:200]}, 'how': 'real code, real integrator'}
     if kind.startswith('accepted'):
         return {'reproduced': False, 'why': 'real call succeeded'}
-    ref = reference_initial(G, cfg['ic'], cfg['I0'] or [], cfg['R0'] or [], rho)
+    ref = reference_initial(G, 'rho' if cfg['ic'] == 'default' else cfg['ic'], cfg['I0'] or [], cfg['R0'] or [], rho)
     names = FULL.get(entry) if cfg['full'] else (['t', 'S', 'I', 'R'] if sir else ['t', 'S', 'I'])
     if names is None or len(ret) != len(names):
         return {'reproduced': kind == 'return-shape', 'concrete_detail': {'len': len(ret)}}
